@@ -130,7 +130,10 @@ class CacheCombine(CacheMixin):
             return self.cache2.store_metadata(metadata)
 
     def remove(self, key):
-        return self.cache1.remove(key) and self.cache2.remove(key)
+        # remove from both caches, even if the first one reports failure
+        removed1 = self.cache1.remove(key)
+        removed2 = self.cache2.remove(key)
+        return removed1 and removed2
 
     def contains(self, key):
         if self.cache1.contains(key):
